@@ -83,7 +83,8 @@ def setup(tier):
         stubs.ctc_engine_json(C, CHARS[:C - 1], line_px_height=H, pool=4)
 
 
-CHARS_ZW = ['a', '​', 'c']        # a charset that holds the zero-width space as a regular symbol in the middle
+CHARS_ZW = ['e\u0301', '\u200b', 'c']   # a charset whose first entry consists of two code points (a letter and a combining accent kept as ONE symbol) and
+                                       # that holds the zero-width space as a regular symbol in the middle
 
 
 def engine(C, zw=False, pool=1):
@@ -285,9 +286,22 @@ def check_case(case, ctx):
                 wide = np.repeat(img, 4, axis=2)
                 tr, lgs, cos = eng4.process_lines([wide[i] for i in range(len(paths))])
                 ctx.executed()
+                held = None
                 for i, p in enumerate(paths):
                     tl = TextLine(id='l', logits=lgs[i], characters=chars + ['​'], logit_coords=cos[i])
                     full = tl.get_full_logprobs()
+                    # the same hand-over through ONE line object that is given the logits of line after line (a page that is recognised again)
+                    if held is None:
+                        held = TextLine(id='h', logits=lgs[i], characters=chars + ['​'], logit_coords=cos[i])
+                    else:
+                        held.logits, held.logit_coords = lgs[i], cos[i]
+                    g6 = GreedyDecoder(chars + [BLANK_SYMBOL])(held.get_full_logprobs()).best_hyp()
+                    ctx.executed()
+                    if g6 != tr[i]:
+                        ctx.violation('engine-and-standalone-agree', f'{K}/process_lines-sparse-logits/GreedyDecoder-on-a-reused-line-object',
+                                      f'paths {paths} (style {style}): one TextLine object is given the logits of line {i} after those of the lines before '
+                                      f'it; GreedyDecoder on its log-probabilities gives {g6!r}, process_lines transcribed {tr[i]!r}', dict(case))
+                        break
                     g4 = GreedyDecoder(chars + [BLANK_SYMBOL])(full[cos[i][0]:cos[i][1]]).best_hyp()
                     g5 = GreedyDecoder(chars + [BLANK_SYMBOL])(full).best_hyp()
                     ctx.executed(2)
